@@ -101,10 +101,10 @@ func (r *registry) handleBlobUploadChunk(ctx context.Context, resp http.Response
 	}
 	if _, err := io.Copy(w, req.Body); err != nil {
 		w.Close()
-		return fmt.Errorf("cannot copy blob data: %w", err)
+		return backendError("cannot copy blob data", err)
 	}
 	if err := w.Close(); err != nil {
-		return fmt.Errorf("cannot close BlobWriter: %w", err)
+		return backendError("cannot close BlobWriter", err)
 	}
 	resp.Header().Set("Location", r.locationForUploadID(rreq.Repo, w.ID()))
 	resp.Header().Set("Range", ocirequest.RangeString(0, w.Size()))
@@ -138,7 +138,7 @@ func (r *registry) handleBlobCompleteUpload(ctx context.Context, resp http.Respo
 	defer w.Close()
 
 	if _, err := io.Copy(w, req.Body); err != nil {
-		return fmt.Errorf("failed to copy data to %T: %w", w, err)
+		return backendError(fmt.Sprintf("failed to copy data to %T", w), err)
 	}
 	desc, err := w.Commit(ociregistry.Digest(rreq.Digest))
 	if err != nil {
